@@ -5,11 +5,11 @@ from props import play_common as pc
 
 TARGETS = ['Props/C11.vo']
 ASSUMPTIONS = ['drivers/play.py feeds every accepted play to four ObservedPlayingPhase objects (dummy hand set after the first card, as the client does) and records accept/raise and the public projection after each']
-T11 = 'nat * nat * list (list nat) * list (nat * nat) * list (list (bool * proj) * (list nat * option (list nat) * list (nat * list nat)))'
+T11 = 'c11case'
 
 
 def run_in_process(ctx):
-    inp = pc.gen(ctx, {'hands', 'observers'})
+    inp = pc.gen(ctx, {'hands', 'observers', 'inject'})
     out = lib.run_impl('play', inp)
     lib.make(['Spec/PlayOracle.vo', 'Model/PlayTie.vo'])
     viol, ties = [], []
@@ -18,10 +18,10 @@ def run_in_process(ctx):
     for k, o, code in zip(inp['hands'], out['hands'], r11):
         if code:
             me, step = (code // 2000) - 1, code % 2000
-            n = len(o['acc_ops']) if step >= 998 else step
+            n = len(o['observers'][me][0]) if step >= 998 else step
             viol.append(dict(kind='observer replica disagrees with the full-information game',
-                             input=dict(bid=k['bid'], declarer=k['decl'], deal=k['deal'], plays=o['acc_ops'][:n], observer='NESW'[me]),
-                             observed=(o['observers'][me][0][n - 1] if step < 998 else o['observers'][me][1]),
+                             input=dict(bid=k['bid'], declarer=k['decl'], deal=k['deal'], attempts=o['observers'][me][0][:n], observer='NESW'[me]),
+                             observed=(o['observers'][me][1][n - 1] if step < 998 else o['observers'][me][2]),
                              expected='accepts the play; same leader, turn, trick number, counts, history as the reference (Spec/PlayOracle.v c11_case)',
                              how_found='ObservedPlayingPhase fed the plays accepted by PlayingPhaseWithHands; cut at the first disagreement',
                              theorem_or_tie='C11_observer_agrees', signature=dict(kind='c11 observer')))
@@ -37,7 +37,7 @@ def run_in_process(ctx):
     return dict(evaluations=steps, distinct_nontrivial=len(distinct),
                 rule='boards (follow / any-card / mixed policies, skewed and random deals, every bid and declarer) played by the full-information env; each accepted play is fed to '
                      'the four observers; non-trivial = an observer step (accept + projection compared); distinct by (board, observer, position)',
-                samples=[dict(bid=inp['hands'][0]['bid'], declarer=inp['hands'][0]['decl'], plays=out['hands'][0]['acc_ops'][:5], north_observer=out['hands'][0]['observers'][0][0][:5])],
+                samples=[dict(bid=inp['hands'][0]['bid'], declarer=inp['hands'][0]['decl'], plays=out['hands'][0]['acc_ops'][:5], north_observer=out['hands'][0]['observers'][0][1][:5])],
                 distribution=dict(boards=len(l11), observer_steps=steps, full_boards=sum(1 for o in out['hands'] if len(o['acc_ops']) == 52)),
                 violations=viol[:10], tie_mismatches=ties)
 
